@@ -14,6 +14,7 @@ type genOpts struct {
 	names            []string
 	jumbo            bool
 	lowBalance       bool
+	rgNums           bool // the three rating groups carry other numbers than 1, 2, 3 on the wire (0, large, sparse)
 	mixCompliant     bool // some containers report a share of the last grant (also all of it), others an absolute volume
 	bigCost          bool // unit costs up to 2^24 too, with volumes kept small enough for every price to fit 32 bits
 }
@@ -146,6 +147,9 @@ func genHist(t *rapid.T, o genOpts) Hist {
 	ns := rapid.IntRange(1, o.maxSubs).Draw(t, "nSubs")
 	for i := 0; i < ns; i++ {
 		hst.Subs = append(hst.Subs, genSub(t, o))
+	}
+	if o.rgNums && rapid.IntRange(0, 2).Draw(t, "otherRGNums") != 0 {
+		hst.RGNums = rapid.SampledFrom([][]int32{{0, 1, 2}, {7, 0, 100}, {2147483647, 65536, 255}, {10, 20, 30}, {3, 2, 1}, {256, 0, 2147483646}}).Draw(t, "rgNums")
 	}
 	names := o.names
 	if names == nil {
